@@ -6,8 +6,8 @@ CONSTANTS
   Cmds = {"c1"}
   ValidCmds = {"c1"}
   MaxSid = 2
-  MaxTime = 3
-  Duration = 2
+  MaxTime = 2
+  Duration = 1
   Lease = 1
   MaxRec = 1
   Bug = {}
